@@ -30,14 +30,20 @@ type c14req struct {
 }
 
 type c14plan struct {
-	NClients int
-	Reqs     []c14req // in issue order
-	Board    int
+	NClients  int
+	Reqs      []c14req // in issue order
+	Board     int
+	Agreement int   // size of the agreement shown to the latecomers
+	LateAt    []int // latecomers: a new connection logs in (and is shown the agreement) right before request LateAt[i] is issued
 }
 
 func c14genPlan(rt *rapid.T) c14plan {
 	p := c14plan{NClients: rapid.IntRange(3, 8).Draw(rt, "nclients"), Board: rapid.SampledFrom([]int{100, 33000, 60000}).Draw(rt, "board")}
 	n := rapid.IntRange(2, 14).Draw(rt, "nreqs")
+	p.Agreement = rapid.SampledFrom([]int{1, 1, 33000, 60000}).Draw(rt, "agreement")
+	for i, late := 0, rapid.IntRange(0, 2).Draw(rt, "latecomers"); i < late; i++ {
+		p.LateAt = append(p.LateAt, rapid.IntRange(0, n-1).Draw(rt, fmt.Sprintf("lateAt%d", i)))
+	}
 	id := uint32(1000)
 	for i := 0; i < n; i++ {
 		id++
@@ -93,7 +99,9 @@ func c14genPlan(rt *rapid.T) c14plan {
 func c14options(p c14plan) hlsim.Options {
 	body := strings.Repeat("n", 60000)
 	news := fmt.Sprintf("Categories:\n    Seed:\n        Type: [0, 3]\n        Name: Seed\n        Articles:\n            1:\n                Title: big\n                Poster: p\n                Date: [7, 208, 0, 0, 0, 0, 0, 0]\n                PrevArt: [0, 0, 0, 0]\n                NextArt: [0, 0, 0, 0]\n                ParentArt: [0, 0, 0, 0]\n                FirstChildArtArt: [0, 0, 0, 0]\n                Data: %s\n        SubCats: {}\n", body)
-	return hlsim.Options{Agreement: "a", Board: strings.Repeat("b", p.Board), NewsYAML: news, Accounts: []hlsim.AccountSpec{acct("admin", "Admin", "adminpw", allAccess)}}
+	seesAgreement := allAccess
+	seesAgreement.Clear(hlref.PrivNoAgreement)
+	return hlsim.Options{Agreement: strings.Repeat("a", max(p.Agreement, 1)), Board: strings.Repeat("b", p.Board), NewsYAML: news, Accounts: []hlsim.AccountSpec{acct("admin", "Admin", "adminpw", allAccess), acct("late", "Late", "latepw", seesAgreement)}}
 }
 
 func c14fixture(w *hlsim.World) {
@@ -186,7 +194,33 @@ func c14run(rt *rapid.T, p c14plan, sequential bool) (res c14result) {
 		for _, c := range cs {
 			c.Rest()
 		}
-		for _, r := range p.Reqs {
+		var late []*hlsim.Conn
+		for ri, r := range p.Reqs {
+			for li, at := range p.LateAt {
+				if at == ri {
+					// a new connection logs in while the others' requests and broadcasts are in flight: login reply, access notice
+					// and the agreement share its byte stream with whatever is broadcast from the moment it is registered
+					lc := w.Connect(fmt.Sprintf("10.14.1.%d:1", li+1), func(c *hlsim.Conn) {
+						c.Wrap = func(inner io.ReadWriteCloser) io.ReadWriteCloser {
+							f := hlsim.NewFairWriter(inner)
+							fw = append(fw, f)
+							return f
+						}
+					})
+					if !sequential {
+						lc.SetSlow(4096, time.Millisecond)
+					}
+					lo := hlsim.LoginOpts{Login: "late", Password: "latepw", Name: []byte(fmt.Sprintf("late%d", li)), Icon: 1}
+					if li%2 == 1 {
+						lo = hlsim.LoginOpts{Login: "late", Password: "latepw", Version: hlref.BE16(190)}
+					}
+					lc.SendAsync(append(hlref.Handshake(1, 2), hlref.Tran{Type: hlref.TranLogin, ID: 77, Fields: lo.Fields()}.Encode()...))
+					late = append(late, lc)
+					if sequential {
+						settle(5 * time.Second)
+					}
+				}
+			}
 			sent[r.Client][r.Tran.ID] = true
 			for i, f := range r.Tran.Fields {
 				if f.ID == hlref.FChatID {
@@ -209,6 +243,23 @@ func c14run(rt *rapid.T, p c14plan, sequential bool) (res c14result) {
 				res.err = e
 			}
 			res.answered = append(res.answered, ans)
+		}
+		for li, lc := range late {
+			lc.SetSlow(0, 0)
+			s := lc.Rest()
+			if len(s) < 8 || string(s[:8]) != "TRTP\x00\x00\x00\x00" {
+				if res.err == "" {
+					res.err = fmt.Sprintf("latecomer %d: no handshake reply at the start of its stream (%d bytes)", li, len(s))
+				}
+				continue
+			}
+			ans, e := c14check(100+li, s[8:], map[uint32]bool{77: true})
+			if e != "" && res.err == "" {
+				res.err = e + " (client 100+i is the i-th connection that logged in under load)"
+			}
+			if e == "" && ans[77] != 1 && res.err == "" {
+				res.err = fmt.Sprintf("latecomer %d: its login was answered %d times", li, ans[77])
+			}
 		}
 		for _, f := range fw {
 			_, wt, mx := f.Stats()
@@ -265,7 +316,7 @@ func c14desc(p c14plan) string {
 		}
 		s = append(s, fmt.Sprintf("c%d:%s(%d)", r.Client, r.Kind, sz))
 	}
-	return fmt.Sprintf("%d clients, board %d: %s", p.NClients, p.Board, strings.Join(s, " "))
+	return fmt.Sprintf("%d clients, board %d, agreement %d, logins under load before requests %v: %s", p.NClients, p.Board, p.Agreement, p.LateAt, strings.Join(s, " "))
 }
 
 func TestC14(t *testing.T) {
